@@ -14,6 +14,10 @@ def corpus(chk):
                 p = Prog(line, [], "corpus/%s/%d" % (f, i))
                 p.fixed = []
                 out.append(p)
+    for i, (tag, text) in enumerate(corelib.scope_type_family()):
+        p = Prog(text, [], "corpus/scope-type/%s%d" % (tag, i))
+        p.fixed = []
+        out.append(p)
     ex = os.path.join(REPO, "examples")
     for f in sorted(os.listdir(ex)):
         if f.endswith(".simf"):
